@@ -16,6 +16,7 @@ trees:
   ['name', i]                         defined name i (scalar if single cell, else like 'rng')
   ['bin', op, x, y]  ['neg', x]  ['fn', NAME, arg, ...]
   ['uni', a, b]                      bracketed union of two references as ONE aggregator argument
+  ['fname', i, tree]                 name i of spec['fnames'], defined by the formula `tree` (carried along at every use)
 Functions: SUM MIN MAX COUNT AVERAGE LARGE SMALL IF IFERROR ISERROR ISNA AND OR LEN LEFT UPPER INDEX.
 
 evaluate(spec, overrides) -> {(b, s, r, c): value} for every populated cell
@@ -91,11 +92,12 @@ def _binary(op, a, b):
 
 
 class Env:
-    def __init__(self, spec, overrides=None, lazy=False):
+    def __init__(self, spec, overrides=None, lazy=False, fname_over=None):
         self.spec = spec
         self.store = {}
         self.over = {tuple(k): const(v) for k, v in (overrides or [])}
         self.names = spec.get('names', [])
+        self.fname_over = {int(i): const(v) for i, v in (fname_over or {}).items()}
 
     def get(self, key):
         key = tuple(key)
@@ -227,6 +229,12 @@ def ev(env, t):
         b, s, r1, c1, r2, c2 = env.names[t[1]]['rect']
         assert (r1, c1) == (r2, c2), 'multi-cell name used as a scalar'
         return env.get((b, s, r1, c1))
+    if k == 'fname':
+        # a name defined by a formula (['fname', i, <its tree>]); a value supplied for the name replaces the formula
+        if t[1] in env.fname_over:
+            return env.fname_over[t[1]]
+        v = ev(env, t[2])
+        return 0.0 if isinstance(v, (Blank, BlankFromBranch)) else v
     if k == 'neg':
         a = ev(env, t[1])
         if a is BFB:
@@ -351,11 +359,11 @@ def _at(env, t, i, j):
     return t
 
 
-def evaluate(spec, overrides=None):
+def evaluate(spec, overrides=None, fname_over=None):
     """-> dict (b, s, r, c) -> value.  An overridden cell is a constant holding
     the supplied value (an overridden formula cell is not re-evaluated; an
     overridden spill cell keeps the override)."""
-    env = Env(spec, overrides)
+    env = Env(spec, overrides, fname_over=fname_over)
     for cell in spec['cells']:
         at = tuple(cell['at'])
         if 'f' not in cell:
@@ -394,6 +402,8 @@ def refs_of(t, names=None, acc=None):
         refs_of(t[3], names, acc)
     elif k == 'neg':
         refs_of(t[1], names, acc)
+    elif k == 'fname':
+        refs_of(t[2], names, acc)
     elif k == 'uni':
         for a in t[1:]:
             refs_of(a, names, acc)
